@@ -24,12 +24,18 @@ def c01_extra(prop,tier,seed,repo,reg,known):
 def c02_extra(prop,tier,seed,repo,reg,known): return zoo_extra(['dag','sched'],['A','B','C','M'])(prop,tier,seed,repo,reg,known)
 def c07_extra(prop,tier,seed,repo,reg,known): return zoo_extra(['flip','fforder','sim'],['C'])(prop,tier,seed,repo,reg,known)
 def c11_extra(prop,tier,seed,repo,reg,known): return zoo_extra(['sim','dag'],['B'])(prop,tier,seed,repo,reg,known)
+def c08_extra(prop,tier,seed,repo,reg,known):
+  from zoo.run import run_special
+  return run_special('nets',repo,seed,tier)
+def c09_extra(prop,tier,seed,repo,reg,known):
+  from zoo.run import run_special
+  return run_special('defect',repo,seed,tier)
 def rtl_extra(prop,tier,seed,repo,reg,known):
   from .rtl_run import run_specs
   return run_specs([sp for sp in rtl_specs() if prop in sp.prop_ids],tier,repo)
 
 
-FIX_COMMITS=['052e08e','9c79cb1','dce12fb','1afafb3','61a0063']
+FIX_COMMITS=['052e08e','9c79cb1','dce12fb','1afafb3','61a0063','7632b61','95f312b']
 
 PROPERTIES={
  'C04': dict(level='proof',
@@ -91,4 +97,14 @@ PROPERTIES={
    note="The generated SCC wrapper and the watched-set computation are not under discharged contracts. Labelled bounded.",
    explanation="executable statement of the property evaluated natively on an exhaustively enumerated family of cyclic designs",
    extra=['contracts:c11_extra'], require_cover=False, assumptions=[]),
+ 'C08': dict(level='other', bounded_only=True,
+   claim="Bounded stand-in only (no obligation proved): 8 connection multisets over signals, slices (incl. a slice of a slice naming the same bits as a plain slice), struct fields at two depths with the whole struct connected too, constants and child ports, each in up to 6 (quick) / 24 (thorough) statement permutations x 3 side-flip patterns (117 designs quick): every variant elaborates to the same nets and writers, each net has exactly one writer that is a member, and in simulation every member carries the writer's value.",
+   note="_floodfill_nets / _resolve_value_connections are not under discharged contracts (DESIGN.md section 6 C08). Labelled bounded.",
+   explanation="executable statement of the property on an enumerated family of connection graphs",
+   extra=['contracts:c08_extra'], require_cover=False, assumptions=[]),
+ 'C09': dict(level='other',
+   claim="Mixed. Proved: Connectable._overlap (the bit-overlap test used for sibling slices) is exact. Bounded stand-in: 47 designs covering every defect class of the statement (two blocks on one signal, field vs parent, nested field twice, overlapping slices, slice vs whole, block vs net, two nets, net vs slice, undriven net, connection loops in 3 orders, 10 hierarchical-position cases for blocks and nets incl. constants, 9 wrong-operator cases incl. nested statements) in every order of their statements fail elaboration with the corresponding error class, and the defect-free counterparts (disjoint slices/fields, one block writing overlapping slices, tree connections, legal parent/child accesses) elaborate.",
+   note="_check_upblk_writes / _check_port_in_upblk / _check_port_in_nets are not under discharged contracts; designs with two simultaneous defects may report either error. Labelled bounded.",
+   explanation="one helper proved; the elaboration checks are exercised natively on an enumerated defect table",
+   extra=['contracts:c09_extra'], require_cover=False, assumptions=[]),
 }
